@@ -342,6 +342,17 @@ def sort_assignments(
     return static_order
 
 
+
+def _one_per_name(declared):
+    """Sorted by name, one atom per name: a state or parameter that is declared
+    (identically) in the blocks of several components is still one quantity with
+    one slot in the generated arrays"""
+    by_name: dict[str, Any] = {}
+    for atom in sorted(declared, key=lambda x: (x.name, x.components)):
+        by_name.setdefault(atom.name, atom)
+    return tuple(by_name.values())
+
+
 class ODE:
     """A class representing an ODE
 
@@ -440,7 +451,7 @@ class ODE:
         states: set[atoms.State] = set()
         for component in self.components:
             states |= component.states
-        return tuple(sorted(states, key=lambda x: x.name))
+        return _one_per_name(states)
 
     @property
     def num_states(self) -> int:
@@ -458,7 +469,7 @@ class ODE:
         parameters: set[atoms.Parameter] = set()
         for component in self.components:
             parameters |= component.parameters
-        return tuple(sorted(parameters, key=lambda x: x.name))
+        return _one_per_name(parameters)
 
     @property
     def num_parameters(self) -> int:
